@@ -135,10 +135,10 @@ int main(void)
   YR_ARENA* loaded = NULL;
   r = yr_arena_load_stream(&rs, &loaded);
   size_t body = 6 + 2 * 12 + B0 + B1;
-  if (n >= body && (n - body) % 8 == 0)
-    VF_ASSERT(r != ERROR_SUCCESS, "a file cut exactly at a relocation-entry boundary is rejected");
+  if (n >= body)
+    VF_ASSERT(r != ERROR_SUCCESS, "a file cut inside the trailing relocation list is rejected");
   else
-    VF_ASSERT(r != ERROR_SUCCESS, "a file cut inside the header, table, a buffer or a relocation entry is rejected");
+    VF_ASSERT(r != ERROR_SUCCESS, "a file cut inside the header, the buffer table or a buffer is rejected");
 #endif
   yr_arena_release(arena);
   VF_WITNESS("end");
